@@ -197,6 +197,13 @@ def run(ctx):
     # corpus: witnesses of the fixed defects (phase i term; readout with a 1)
     do(ctx, 'expect_poly', [[[[[0, 1], 0], [[1, 0], 0]], 0], [[[0, 1], 1, [1, 0]]], 'pauli'], nontrivial='w1', sample=True)
     do(ctx, 'get_prob', ['np', [[[[0, 1], 2], [[1, 0], 0]], 0]], nontrivial='w2')
+    # LONG lists: more rows / terms / pairs than any block, chunk or vector width (255, 256, 257, 300, 1025 rows; 65 x 65 and 40 x 130 term pairs)
+    for L in gen.LONG[:4]:
+        for be in ('np', 'torch'):
+            n = rng.randint(1, 4)
+            t = gen.rtableau(rng, ctx.model, n)
+            obs = [gen.rpauli(rng, n, herm=True) if rng.random() < 0.5 else [t[0][rng.randrange(n)][0], rng.choice([0, 2])] for _ in range(L)]
+            do(ctx, 'expect_corr', [be, t, obs], nontrivial=('long', be, L))
     # LARGE registers: byte, word and cache-line boundaries of every packed or vectorised representation (8, 9, 16, 17, 33, 64, 65 qubits); model correspondence only
     for n in gen.BIG:
         for be in ('np', 'torch'):
